@@ -606,10 +606,10 @@ def execute(plan, prop, out, tr):
                 raise Violation("C08.ret", "call %d: step returned %.12g but optimizer.loss is %.12g" %
                                 (ci, ret_f, float(opt.loss)), ci, "ret-vs-loss")
             if c["opt"] == "GN":
-                if abs(ret_f - L_e) > tight * scaleL:
+                if ret_f != L_e and not (abs(ret_f - L_e) <= tight * scaleL):
                     raise Violation("C08.ret", "GN call %d: returned %.12g, loss at the new parameters %.12g" %
                                     (ci, ret_f, L_e), ci, "gn:ret")
-                if abs(float(opt.last) - L_s) > tight * scaleL:
+                if not (abs(float(opt.last) - L_s) <= tight * scaleL):
                     raise Violation("C08.gn-last", "GN call %d: optimizer.last %.12g, loss at the previous parameters "
                                     "%.12g" % (ci, float(opt.last), L_s), ci, "gn:last")
                 out.sigs.add("GN|%s" % prev_sig); prev_sig = "gn"
@@ -638,10 +638,10 @@ def execute(plan, prop, out, tr):
                     if float(tk["loss"]) != math.inf:
                         raise Violation("C08.trial-loss", "call %d trial %d: the trial parameters have loss +inf, the strategy was "
                                         "told %r" % (ci, k, float(tk["loss"])), ci, "trial-loss:inf")
-                if L_k != math.inf and abs(float(tk["loss"]) - L_k) > tight * (1 + abs(L_k)):
+                if L_k != math.inf and not (abs(float(tk["loss"]) - L_k) <= tight * (1 + abs(L_k))):
                     raise Violation("C08.trial-loss", "call %d trial %d: strategy was told loss %.12g, the trial "
                                     "parameters have loss %.12g" % (ci, k, float(tk["loss"]), L_k), ci, "trial-loss")
-                if abs(float(tk["last"]) - L_s) > tight * scaleL:
+                if not (abs(float(tk["last"]) - L_s) <= tight * scaleL):
                     raise Violation("C08.trial-last", "call %d trial %d: strategy was told last=%.12g, the loss before "
                                     "the trial is %.12g" % (ci, k, float(tk["last"]), L_s), ci, "trial-last")
                 last_trial = (k == n_solves - 1)
@@ -682,7 +682,7 @@ def execute(plan, prop, out, tr):
                     if not torch.equal(a_, b_):
                         raise Violation("C08.solver-raise", "call %d: solver raised at trial %d but the parameters after "
                                         "the call are not those before that trial" % (ci, k), ci, "raise:params")
-                if abs(ret_f - L_s) > tight * scaleL:
+                if not (abs(ret_f - L_s) <= tight * scaleL):
                     raise Violation("C08.solver-raise", "call %d: solver raised at trial %d; returned loss %.12g, loss "
                                     "before the trial %.12g" % (ci, k, ret_f, L_s), ci, "raise:loss")
                 out.probe("call:raise-first-trial" if k == 0 else "call:raise-after-reject")
@@ -967,7 +967,7 @@ def _c07_call(c, model, kinds, data, targets, weight, opt, srec, trec, p_s, p_e,
             if len(rank_gap) and rank_gap[-1] / sv[0] > 1e-7:
                 Dref = np.linalg.pinv(WJ, rcond=1e-10) @ (-WR)
                 err = float(np.abs(rs_["honest"].double().numpy().reshape(-1) - Dref).max())
-                if err > 1e-5 * TS * (1 + np.abs(Dref).max()) / min(1.0, rank_gap[-1] / sv[0] * 1e3):
+                if not (err <= 1e-5 * TS * (1 + np.abs(Dref).max()) / min(1.0, rank_gap[-1] / sv[0] * 1e3)):
                     raise Violation("C07.gn-step", "GN call %d: step differs from the minimum-norm least-squares solution "
                                     "by %.3e" % (ci, err), ci, "gn-step")
             else:
@@ -1021,7 +1021,7 @@ def _c07_call(c, model, kinds, data, targets, weight, opt, srec, trec, p_s, p_e,
                         if not r2 <= 1.001e-5 * b2 + 1e-11 * (np.abs(A).max() * np.abs(Dh).max() * len(b) + b2):
                             raise Violation("C07.solve", "LM call %d trial %d: the CG step leaves ||A delta - b|| = %.3e with "
                                             "||b|| = %.3e (documented stopping rule: below 1e-5 ||b||)" % (ci, k, r2, b2), ci, "solve:cg")
-                elif res > 1e-7 * TS * (np.abs(A).max() * np.abs(Dh).max() + np.abs(b).max() + 1e-300) * max(1.0, np.sqrt(np.linalg.cond(A)) * 1e-3):
+                elif not (res <= 1e-7 * TS * (np.abs(A).max() * np.abs(Dh).max() + np.abs(b).max() + 1e-300) * max(1.0, np.sqrt(np.linalg.cond(A)) * 1e-3)):
                     raise Violation("C07.solve", "LM call %d trial %d: the step does not solve A delta = b (residual %.3e)"
                                     % (ci, k, res), ci, "solve")
             lam = trec[tri]["after"]["damping"]
@@ -1048,6 +1048,9 @@ def _check_update(kinds, before, after, D, cols, ci, k):
     per = {}
     for cidx, (pi, it, sl, live) in enumerate(cols):
         per.setdefault(pi, []).append(Dv[cidx])
+    # round-off of pypose's own se3 / sim3 Exp in the thin bands 0 < theta, |sigma| << 1 (see _retraction_slack): the
+    # reference exponential is exact there, the library's closed forms are not; that is C01's subject, not this one's
+    slack = _retraction_slack(kinds, D, before, _eps(before[0].dtype) if before else 2.3e-16)
     for i, ps in enumerate(kinds):
         if ps.get("frozen"):
             if not torch.equal(before[i], after[i]):
@@ -1057,7 +1060,7 @@ def _check_update(kinds, before, after, D, cols, ci, k):
         kind_r, want = om.retract_ref(before[i], ps, d)
         _, got = om.as_ref(after[i], ps)
         err = float(np.abs(got - want).max())
-        if not err <= 1e-9 * TS * (1 + float(np.abs(want).max())) * (1 + float(np.abs(d).max())):
+        if not err <= 1e-9 * TS * (1 + float(np.abs(want).max())) * (1 + float(np.abs(d).max())) + slack.get(i, 0.0):
             raise Violation("C07.update", "call %d trial %d: parameter %d (%s %s) after the update differs from %s by %.3e" %
                             (ci, k, i, ps["kind"], ps.get("fam", ""),
                              "Exp(delta) @ X" if ps["kind"] == "grp" else "p + delta", err), ci,
